@@ -227,7 +227,7 @@ def gen_plan(seed, tier):
       dataset_kinds=["blobs", "blobs", "grid"], tiny_scale_p=0.15,
       weights=dict(query=40, refit=8, threshold=18, calibrate=10, sweep=8, handout=0, mutate=0,
                    restart=5, clone=2, ambient=2, eigsh=0, set_nondata=2, failfit=2,
-                   fault=0, new=6))
+                   fault=0, new=6, swap_pre=4))
 
 
 def run_plan(plan):
